@@ -75,7 +75,7 @@ Request(b, ep) ==
              ELSE \* refused; a session that exists but is not (any longer) authorised, or whose credential is invalid, is cleared
                   /\ br' = [br EXCEPT ![b] = NoSess]
                   /\ stored' = IF Store = "redis" /\ Exists(s) THEN stored \ {s.sid} ELSE stored
-                  /\ Step("request", [b |-> b, ep |-> ep], [served |-> FALSE, status |-> [oneof |-> <<401, 403>>]])
+                  /\ Step("request", [b |-> b, ep |-> ep], [served |-> FALSE, class |-> [oneof |-> <<"signin", "idp_redirect", "401", "403">>]])
                   /\ UNCHANGED snaps
     /\ UNCHANGED <<allowed, idpOK, member, pw, nsid>>
 
@@ -87,7 +87,7 @@ SignOut(b) ==
     /\ stored' = IF ~br[b].tampered /\ br[b].age # "expired" THEN stored \ {br[b].sid} ELSE stored
     \* the sign-out request passes the session loader like any other: a stale session is refreshed first (its refresh token is spent)
     /\ usedRT' = IF Refreshes(br[b]) /\ Store = "cookie" THEN usedRT \cup {<<br[b].sid, br[b].gen>>} ELSE usedRT
-    /\ Step("signout", [b |-> b], [status |-> 302, stillSignedIn |-> FALSE])
+    /\ Step("signout", [b |-> b], [redirected |-> TRUE, stillSignedIn |-> FALSE])
     /\ UNCHANGED <<snaps, allowed, idpOK, member, pw, nsid>>
 
 \* an old credential of ANY browser is presented by browser b (theft / replay)
@@ -137,7 +137,7 @@ GroupChange(u) ==
 \* the operator rotates it by rewriting the file (watched and reloaded)
 BasicRequest(b, v) ==
     /\ More
-    /\ Step("basic", [b |-> b, v |-> v], IF v = pw THEN [served |-> TRUE, user |-> "hp"] ELSE [served |-> FALSE, status |-> [oneof |-> <<401, 403>>]])
+    /\ Step("basic", [b |-> b, v |-> v], IF v = pw THEN [served |-> TRUE, user |-> "hp"] ELSE [served |-> FALSE, class |-> [oneof |-> <<"signin", "idp_redirect", "401", "403">>]])
     /\ UNCHANGED <<br, stored, snaps, allowed, idpOK, member, pw, usedRT, nsid>>
 PwChange ==
     /\ More
